@@ -54,6 +54,7 @@ type twin struct {
 	Dest  dest         `json:"dest"`
 	// the calls made earlier with the SAME quote object (and, where SameTx, on the same transaction object), in order
 	Before []histStep `json:"earlier_calls_with_this_quote_object,omitempty"`
+	Note   string     `json:"what_this_case_features,omitempty"`
 }
 
 func b2s(b bool) string { return common.CoqBool(b) }
@@ -110,6 +111,19 @@ func feeWithChangeRaw(s txgen.TxSpec, q feegen.Quote, d dest) (*big.Int, bool) {
 	return q.Quoted(z.TotalStdBytes, z.TotalDataBytes), true
 }
 
+// feeWithChangeSpec: the same fee from the size computed from the plain description (feegen.EstSize), not by the library.
+func feeWithChangeSpec(s txgen.TxSpec, q feegen.Quote, d dest) (*big.Int, bool) {
+	s2 := s
+	if d.Kind != "existing" {
+		s2.Outs = append(append([]txgen.OutSpec{}, s.Outs...), txgen.OutSpec{Sats: 0, Script: d.Script})
+	}
+	std, data, ok := feegen.EstSize(s2)
+	if !ok {
+		return nil, false
+	}
+	return q.Quoted(std, data), true
+}
+
 var histCount int
 
 func changeCase(kind string, s txgen.TxSpec, q feegen.Quote, d dest, hyp bool) {
@@ -124,6 +138,7 @@ type opts struct {
 	big    bool         // tens of thousands of outputs: compact report, CChangeBig (clone-free evaluation of the model)
 	noCoq  bool         // Go-level predicates only (the case is still counted)
 	asIs   bool         // no detour through the extended format / earlier estimates
+	note   string       // what the case features (for the report)
 }
 
 func changeCaseX(kind string, s txgen.TxSpec, q feegen.Quote, d dest, hyp bool, o opts) *bt.Tx {
@@ -178,7 +193,7 @@ func changeCaseX(kind string, s txgen.TxSpec, q feegen.Quote, d dest, hyp bool, 
 		})
 		kind += "/estimated-before-an-in-place-edit"
 	}
-	tw := twin{Kind: kind, Tx: s, Quote: q, Dest: d, Before: o.before}
+	tw := twin{Kind: kind, Tx: s, Quote: q, Dest: d, Before: o.before, Note: o.note}
 	if o.big {
 		tw.Tx = compact(s)
 	}
@@ -245,6 +260,16 @@ func changeCaseX(kind string, s txgen.TxSpec, q feegen.Quote, d dest, hyp bool, 
 			c.Violate(site+"/value-created", fmt.Sprintf("outputs %s exceed inputs %s", outB, inB), tw)
 		}
 		left := new(big.Int).Sub(inB, outB)
+		if !added && estErr == nil && !p2 {
+			// which bytes are data bytes does not depend on whether change was added: the library's estimate of the
+			// (unchanged) transaction against the size computed from its plain description
+			if es, ed, ok := feegen.EstSize(txgen.FromTx(tx)); ok {
+				c.Tally("independent-size-estimate/no-change")
+				if es != estAfter.TotalStdBytes || ed != estAfter.TotalDataBytes {
+					c.Violate("EstimateSizeWithTypes/differs-from-the-final-size", fmt.Sprintf("library %d std + %d data, final size with 107-byte unlocking scripts %d std + %d data", estAfter.TotalStdBytes, estAfter.TotalDataBytes, es, ed), tw)
+				}
+			}
+		}
 		if added && estErr == nil && !p2 {
 			quoted := q.Quoted(estAfter.TotalStdBytes, estAfter.TotalDataBytes)
 			slack := new(big.Int).Add(q.Quoted(9, 0), big.NewInt(9))
@@ -278,11 +303,25 @@ func changeCaseX(kind string, s txgen.TxSpec, q feegen.Quote, d dest, hyp bool, 
 					c.Violate(site+"/burns-change", fmt.Sprintf("no change added although %s - %s exceeds the dust limit", left, fw), tw)
 				}
 			}
+			// the same with the fee of the size computed from the plain description (data bytes = the scripts that
+			// begin with OP_RETURN / OP_FALSE OP_RETURN), not with what the library estimates
+			if fw, ok := feeWithChangeSpec(s, q, d); ok {
+				c.Tally("independent-fee-with-change/no-change")
+				if new(big.Int).Sub(left, fw).Cmp(big.NewInt(int64(bt.DustLimit))) > 0 {
+					c.Violate(site+"/burns-change", fmt.Sprintf("no change added although %s - %s (the quoted fee of the final size with a change output) exceeds the dust limit", left, fw), tw)
+				}
+			}
 		} else if fw, ok := feeWithChange(s, q, d); ok {
 			dust := big.NewInt(int64(bt.DustLimit))
 			before := new(big.Int).Sub(inB, feegen.SumOut(s))
 			if new(big.Int).Sub(before, fw).Cmp(dust) <= 0 {
 				c.Violate(site+"/change-below-dust", "change added although the remainder is at or below the dust limit", tw)
+			}
+			if fw2, ok := feeWithChangeSpec(s, q, d); ok {
+				c.Tally("independent-fee-with-change/added")
+				if new(big.Int).Sub(before, fw2).Cmp(dust) <= 0 {
+					c.Violate(site+"/change-below-dust", fmt.Sprintf("change added although %s - %s (the quoted fee of the final size with a change output) is at or below the dust limit", before, fw2), tw)
+				}
 			}
 		}
 	}
@@ -579,6 +618,9 @@ func main() {
 	for _, f := range moreFamilies(r, thorough) {
 		jobs = append(jobs, job{run: f})
 	}
+	for _, f := range dataClassFamilies(r, thorough) {
+		jobs = append(jobs, job{run: f})
+	}
 	for i := len(jobs) - 1; i > 0; i-- {
 		j := r.Intn(i + 1)
 		jobs[i], jobs[j] = jobs[j], jobs[i]
@@ -590,6 +632,6 @@ func main() {
 		}
 		changeCase(j.kind, j.s, j.q, j.d, j.hyp)
 	}
-	c.Stats.Rule = "grid: output counts {0,1,2,251,252,253,254} (identical P2PKH or data outputs; a mixed data/P2PKH pair for the small counts) x 9 quotes (1/20, 1/2, 1, 5, 50 sat/byte, unequal std/data) x 1..3 P2PKH inputs (some already signed) x destinations {address, P2PKH script, 1-byte, 200-byte, 252..300-byte, data script, existing index} x amount relations {insufficient, fee-1, =fee, fee+dust, fee+dust+1, ample, ample with a remainder of 2^63 and more} computed from the fee a change output would require (quick tier: at 252 and 253 outputs every quote x destination at fee+dust+1 (a 2-satoshi change output) and a third of them also at fee+dust (no change), at 251 and 254 a rotating third of the destinations; thorough: the full grid); plus bad address, index out of range / wrapping negative, nil or unsupported previous script, missing fee type, zero denominator, wrapping fee products and totals. every third case on a transaction object whose size and fee were estimated while one of its scripts had another size (in-place edit, counts unchanged). zero-rate: 5 quotes with a numerator 0 (data bytes free / only data bytes paid for / everything free) x transactions most of whose bytes are data bytes (300..2000-byte data outputs) x destinations (also a large data script) x {fee+dust, fee+dust+1, ample}. history: 36 (thorough 800) sequences of 3..4 change operations with ONE quote object (14 quotes incl. the zero-rate ones) over different transactions and, for a third of the steps, again on the transaction object the previous call left - every call judged by the rates as first handed in. tight: destination script lengths at which (std bytes x sat) mod unit < sat, so that one byte missing from the size is one satoshi missing from the fee at every rate, at 1 and 252 existing outputs. big: 65534 / 65535 / 65536 identical existing outputs (second boundary of the output-count varint) x 9 quotes x {tight script, P2PKH script, address, existing index} x {fee+dust, fee+dust+1, ample}: quick tier 19 of them (all 9 quotes at 65535 with a tight destination and a 2-satoshi change output), 6 also evaluated on the model without the serialise-and-reparse of Clone (CChangeBig, proofs/ChangeDirect.v), the others as Go-level predicates over the integers. On every case: the caller's quote object (both fee units of both fee types, labels, expiry) and destination script read the same after the call, and the quote the object states afterwards is an observable of the correspondence. distinct = distinct (tx, quote, destination); non-trivial = at least one input"
+	c.Stats.Rule = "grid: output counts {0,1,2,251,252,253,254} (identical P2PKH or data outputs; a mixed data/P2PKH pair for the small counts) x 9 quotes (1/20, 1/2, 1, 5, 50 sat/byte, unequal std/data) x 1..3 P2PKH inputs (some already signed) x destinations {address, P2PKH script, 1-byte, 200-byte, 252..300-byte, data script, existing index} x amount relations {insufficient, fee-1, =fee, fee+dust, fee+dust+1, ample, ample with a remainder of 2^63 and more} computed from the fee a change output would require (quick tier: at 252 and 253 outputs every quote x destination at fee+dust+1 (a 2-satoshi change output) and a third of them also at fee+dust (no change), at 251 and 254 a rotating third of the destinations; thorough: the full grid); plus bad address, index out of range / wrapping negative, nil or unsupported previous script, missing fee type, zero denominator, wrapping fee products and totals. every third case on a transaction object whose size and fee were estimated while one of its scripts had another size (in-place edit, counts unchanged). zero-rate: 5 quotes with a numerator 0 (data bytes free / only data bytes paid for / everything free) x transactions most of whose bytes are data bytes (300..2000-byte data outputs) x destinations (also a large data script) x {fee+dust, fee+dust+1, ample}. history: 36 (thorough 800) sequences of 3..4 change operations with ONE quote object (14 quotes incl. the zero-rate ones) over different transactions and, for a third of the steps, again on the transaction object the previous call left - every call judged by the rates as first handed in. tight: destination script lengths at which (std bytes x sat) mod unit < sat, so that one byte missing from the size is one satoshi missing from the fee at every rate, at 1 and 252 existing outputs. big: 65534 / 65535 / 65536 identical existing outputs (second boundary of the output-count varint) x 9 quotes x {tight script, P2PKH script, address, existing index} x {fee+dust, fee+dust+1, ample}: quick tier 19 of them (all 9 quotes at 65535 with a tight destination and a 2-satoshi change output), 6 also evaluated on the model without the serialise-and-reparse of Clone (CChangeBig, proofs/ChangeDirect.v), the others as Go-level predicates over the integers. data-class: which outputs are data outputs - 34 data scripts (OP_RETURN / OP_FALSE OP_RETURN followed by nothing, several pushes, a push cut short in every encoding incl. the length field itself, random bytes, non-push opcodes, a second marker) and 22 look-alikes that are not data (a push of the byte 6a, OP_FALSE then a push of 6a, OP_RETURN second / third / last, P2PKH with a hash of 6a bytes, opcodes 69 / 6b, OP_FALSE alone), each as an existing output (at a random position among 0..2 P2PKH outputs and 0..2 further shapes; data outputs carrying satoshis; also as the target index) and as the change destination, 150..700 filler bytes, x 9 quotes with unequal standard and data rates (either dearer, either free) x {fee+dust, fee+dust+1, ample}; thorough: 8 rounds with fresh lengths and fillers x 3 quotes x all three amount relations. On every successful case the library's estimated size (standard / data bytes) equals the size computed from the plain description, change or no change, and the dust decision is also judged with the fee of that size. On every case: the caller's quote object (both fee units of both fee types, labels, expiry) and destination script read the same after the call, and the quote the object states afterwards is an observable of the correspondence. distinct = distinct (tx, quote, destination); non-trivial = at least one input"
 	c.Finish()
 }
